@@ -75,8 +75,10 @@ def scope_files(prog: Program, pid: str) -> set[str]:
         files.add(prog.module(P + "generators").rel())
     # likewise "all four gap functions" / "all registered computers": the functions behind GAP_FUNCTIONS / BOUNDS run under the property
     text = _property_text(pid)
-    for words, reg in ((("gap function", "gap functions"), "run.model.GAP_FUNCTIONS"), (("registered computer", "every computer", "all computers", "game class"), "bounds.BOUNDS")):
-        if any(w in text for w in words):
+    anchored_registries = {f"{m.name}.{n}" for m in prog.modules.values() if m.rel() in files for n, v in m.assigns.items() if isinstance(v, ast.Dict)}
+    for words, reg in ((("gap", "reward"), "run.model.GAP_FUNCTIONS"), (("registered computer", "every computer", "all computers", "game class"), "bounds.BOUNDS")):
+        # named by the property's text, or defined in one of its anchor files
+        if any(w in text for w in words) or (P + reg) in anchored_registries:
             try:
                 from ..core import registry, unwrap_partial
                 for e in registry(prog, reg):
